@@ -149,6 +149,43 @@ def check_common(F, rep):
         }[helper]
         rep.require(a == want, "common-data", "arm-args:%s" % cname, cs.where(), "arguments: the matching header, its sh_link'ed header / its designated bytes",
                     "under sh_type == %s, %s is called with %s; expected %s" % (cname, helper, [show(x)[:120] for x in a], [show(x)[:120] for x in want]))
+    # the scan visits every section header: it iterates the whole table and is left only when the iterator is exhausted,
+    # on a failed read, or once every one of the five kinds has been stored (the property assumes at most one section per kind)
+    from ..hashrules import loop_exit_controls
+    if len(an.loops) != 1:
+        rep.bad("common-data", "scan:loop", w, "UNRECOGNISED: %d loops in find_common_data (expected the one pass over the section headers)" % len(an.loops))
+    else:
+        hdr = next(iter(an.loops))
+        srcs = [norm(c.arg_values()[0]) for c in an.calls() if c.declared_norm == "iter::IntoIterator::into_iter"]
+        tab = ("payload", F_(P(1), "shdrs"), "Some")
+        want_src = ("agg", "parse::ParsingIterator", "ParsingIterator", (F_(tab, "endian"), F_(tab, "class"), F_(tab, "data"), C(0), ("agg", "marker::PhantomData", "PhantomData", ())))
+        rep.require(srcs in ([want_src], [("call", "parse::ParsingTable::iter", (tab,))]), "common-data", "scan:source", w, "iterates self.shdrs.iter() (every header, in order)",
+                    "find_common_data scans %s, expected every header of self.shdrs" % [show(x)[:160] for x in srcs])
+        nexts = [c for c in an.calls() if c.declared_norm == "iter::Iterator::next" and c.block in an.loops[hdr]]
+        for sw, val, tgt, frm in loop_exit_controls(an, hdr):
+            if sw is None or val is None:
+                rep.bad("common-data", "scan:exit", w, "the scan over the section headers is left unconditionally from bb%d" % frm)
+                continue
+            d = norm(an.switches[sw])
+            ds = show(d)[:160]
+            if d[0] == "discr" and d[1][0] == "call" and d[1][1] == "ops::Try::branch":
+                ok = val == "1"
+            elif d[0] == "discr" and (d[1][0] == "fresh" or (d[1][0] == "call" and d[1][1].endswith("::next"))) and any(an.dominates(c.block, sw) for c in nexts):
+                ok = val == "0"
+            else:
+                FIELD = re.compile(r"\b(symtab|dynsyms|dynamic|sysv_hash|gnu_hash)\b")
+                have = set()
+                for f in an.entry[frm].facts:
+                    if f[0] == "var" and f[2] == "Some" and FIELD.search(pp(f[1])):
+                        have.add(FIELD.search(pp(f[1])).group(1))
+                if frm == sw and d[0] in ("Eq", "Ne") and (val == "otherwise") == (d[0] == "Eq") and C(1) in d[1:]:
+                    for x in d[1:]:     # the controlling test itself: is_some() of one more field
+                        if isinstance(x, tuple) and x[0] == "discr" and FIELD.search(show(x)):
+                            have.add(FIELD.search(show(x)).group(1))
+                ok = have == {"symtab", "dynsyms", "dynamic", "sysv_hash", "gnu_hash"}
+            rep.require(ok, "common-data", "scan:exit|%s|%s" % (ds, val), w, "scan exit on %s=%s" % (ds, val),
+                        "find_common_data stops scanning on %s = %s before every section header has been seen: a later section of a kind not yet found "
+                        "is missing from the result although the targeted accessor finds it" % (ds, val))
     # targeted accessors search the same constant and use the same helper with the same provenance
     for q, (cname, helper) in TARGETED.items():
         tfn = F.fn(q)
